@@ -2,8 +2,8 @@
      prog   := nifaces iface* nimpls impl* nvars var* nhelpers helper* nops op*
      iface  := name n name*
      impl   := iface type nstatics (name z)* nmethods method*
-     method := name nstmts stmt* expr
-     stmt   := F field expr | S static expr | P tag n expr* | C tag method expr
+     method := name (i | v) nlocals var* nstmts stmt* expr        (i: int m(int d) ; v: void m(int d))
+     stmt   := F field expr | S static expr | P tag n expr* | C tag method expr | O op | G expr stmt
      expr   := c z | a | s | f name | t name | + e e | - e e | * e e
      var    := name C type payload | name A type n payload*
      payload:= S n (field z)* | P z
@@ -34,19 +34,6 @@ let rec expr () =
   | "-" -> let a = expr () in let b = expr () in ESub (a, b)
   | "*" -> let a = expr () in let b = expr () in EMul (a, b)
   | t -> raise (Bad ("expr " ^ t))
-let stmt () =
-  match next () with
-  | "F" -> let f = name () in SSetField (f, expr ())
-  | "S" -> let n = name () in SSetStatic (n, expr ())
-  | "P" -> let tag = name () in let n = num () in SPrint (tag, many n expr)
-  | "C" -> let tag = name () in let m = name () in SCallSelf (tag, m, expr ())
-  | t -> raise (Bad ("stmt " ^ t))
-let meth () = let n = name () in let k = num () in let b = many k stmt in let r = expr () in { m_name = n; m_body = b; m_ret = r }
-let impl () =
-  let i = name () in let t = name () in
-  let ns = num () in let ss = many ns (fun () -> let n = name () in (n, zed ())) in
-  let nm = num () in let ms = many nm meth in
-  { i_iface = i; i_type = t; i_statics = ss; i_methods = ms }
 let payload () =
   match next () with
   | "S" -> let n = num () in PStruct (many n (fun () -> let f = name () in (f, zed ())))
@@ -78,6 +65,26 @@ let op () =
   | "e" -> let a = name () in let i = nat_of_int (num ()) in let f = name () in OSetElem (a, i, f, zed ())
   | "w" -> OShow (name ())
   | t -> raise (Bad ("op " ^ t))
+let rec stmt () =
+  match next () with
+  | "F" -> let f = name () in SSetField (f, expr ())
+  | "S" -> let n = name () in SSetStatic (n, expr ())
+  | "P" -> let tag = name () in let n = num () in SPrint (tag, many n expr)
+  | "C" -> let tag = name () in let m = name () in SCallSelf (tag, m, expr ())
+  | "O" -> SOp (op ())
+  | "G" -> let g = expr () in SGuard (g, stmt ())
+  | t -> raise (Bad ("stmt " ^ t))
+let meth () =
+  let n = name () in
+  let v = (match next () with "v" -> true | "i" -> false | t -> raise (Bad ("method kind " ^ t))) in
+  let nl = num () in let ls = many nl var in
+  let k = num () in let b = many k stmt in let r = expr () in
+  { m_name = n; m_void = v; m_locals = ls; m_body = b; m_ret = r }
+let impl () =
+  let i = name () in let t = name () in
+  let ns = num () in let ss = many ns (fun () -> let n = name () in (n, zed ())) in
+  let nm = num () in let ms = many nm meth in
+  { i_iface = i; i_type = t; i_statics = ss; i_methods = ms }
 let prog () =
   let ni = num () in
   let ifs = many ni (fun () -> let i = name () in let n = num () in (i, many n name)) in
@@ -89,7 +96,7 @@ let prog () =
 let err_class = function
   | EIncomplete _ -> "incomplete" | EDuplicate _ -> "duplicate" | EConflict _ -> "conflict"
   | ENoImpl _ -> "noimpl" | EUndefVar _ -> "undefvar" | EUndefFunc _ -> "undeffunc"
-  | ERange -> "range" | EBad -> "bad" | EUnmodelled -> "unmodelled"
+  | ERange -> "range" | EBad -> "bad" | EUnmodelled -> "unmodelled" | EFuel -> "fuel"
 let () =
   (try while true do
     let l = input_line stdin in
